@@ -214,6 +214,24 @@ class PythonExpressionMapper(StringifyMapper):
                 expr.function, expr.parameters,
                 expr.kw_parameters)
 
+    def map_comparison(self, expr, enclosing_prec):
+        # Python chains comparisons ("a < b == c" means "a < b and b == c")
+        # and "not" binds less tightly than a comparison, so an operand that
+        # is itself a comparison or a logical negation needs parentheses.
+        from pymbolic.mapper.stringifier import PREC_COMPARISON
+        from pymbolic.primitives import Comparison, LogicalNot
+
+        def rec_operand(operand):
+            result = self.rec(operand, PREC_COMPARISON)
+            if isinstance(operand, (Comparison, LogicalNot)):
+                result = "(%s)" % result
+            return result
+
+        return self.parenthesize_if_needed(
+            "{} {} {}".format(
+                rec_operand(expr.left), expr.operator, rec_operand(expr.right)),
+            enclosing_prec, PREC_COMPARISON)
+
     def map_power(self, expr, enclosing_prec):
         # In Python, "**" is right-associative and binds more tightly than a
         # unary minus on its left: "a**b**c" is a**(b**c) and "-2**2" is
